@@ -167,6 +167,29 @@ def run(tier):
                                    "what": "%d injected faults changed %d blocks of %s" % (nf, len(changed), name)})
             elif len(samples) < 3:
                 samples.append({"document": name, "injected": inj, "blocks_reverted_to_input": len(changed), "other_blocks_identical": len(out0) - len(changed)})
+    # ---- (3) a real analysis failure in one contract next to contracts with the same short name (coinciding block names): every
+    # contract's result must be what the run on that contract alone gives
+    import docs as _docs
+    for (dname, ddoc), singles in _docs.dup_named():
+        r = docrun.run_docs([(dname, ddoc)], ["-greedy"])[0]
+        on = dname.split(".")[0] + "_optimized.json_solc"
+        c["dup-name-runs"] += 1
+        if r["status"] != "ok" or not r["res"] or r["res"].get("rc") != 0 or on not in r["res"].get("files", {}):
+            violations.append({"kind": "no-output-file", "input": dname, "what": "run of %s (a contract with a block the analysis raises on): rc %s %s"
+                               % (dname, (r["res"] or {}).get("rc"), ((r["res"] or {}).get("stderr_tail") or "")[-300:])})
+            continue
+        multi = json.loads(r["res"]["files"][on])
+        for cn, (sname, sdoc) in singles:
+            rs = docrun.run_docs([(sname, sdoc)], ["-greedy"])[0]
+            son = sname.split(".")[0] + "_optimized.json_solc"
+            if rs["status"] != "ok" or not rs["res"] or son not in rs["res"].get("files", {}):
+                continue
+            alone = json.loads(rs["res"]["files"][son])
+            c["dup-name-contracts"] += 1
+            if multi.get("contracts", {}).get(cn) != alone.get("contracts", {}).get(cn):
+                violations.append({"kind": "failure-in-one-contract-changes-another", "input": dname, "options": ["-greedy"],
+                                   "what": "contract %s of %s (next to a same-named contract with a block the analysis raises on) is not what the run on "
+                                           "that contract alone emits" % (cn, dname)})
     cov = {"obligations": po["obligations"], "discharged": po["discharged"],
            "checker_cmd": "cd lean && lake build; #print axioms " + ", ".join(THEOREMS),
            "trusted_base": ["Lean 4.33 kernel", "axioms: propext, Classical.choice, Quot.sound", "Pipeline.lean as the model of the keep-or-revert loop",
